@@ -1412,3 +1412,143 @@ Proof.
             cbn [length app] in *; lia
         end.
 Qed.
+
+(** * get_ghost_or_missed_entry *)
+Lemma reclaim_keeps_ghosts f s cs s' d ev : reclaim f s cs = Ok (s', d, ev) ->
+  (forall x, In x (gprec s) -> In x (gprec s')) /\ (forall x, In x (gprobe s) -> In x (gprobe s')).
+Proof.
+  unfold reclaim. destruct (_ <? cap s).
+  - destruct (_ && _); [discriminate|]. destruct (nth_error _ _); [|discriminate].
+    intros E; inversion E; subst. simp_st. split; auto.
+  - destruct (evict_entry s cs 0) as [[s1 v]|] eqn:Ev; [|discriminate].
+    intros E; inversion E; subst. simp_st.
+    destruct (evict_shape _ _ _ _ _ Ev) as (_ & _ & _ & [(_ & _ & E2 & E3 & _)|(_ & _ & E2 & E3 & _)]);
+      rewrite E2, E3; split; intros x Hx; auto; right; exact Hx.
+Qed.
+
+Lemma two_witness (l : list nat) e : NoDup l -> In e l -> 2 <= length l ->
+  exists y, In y l /\ y <> e.
+Proof.
+  intros Hnd Hin Hlen. pose proof (length_rm_in _ _ Hnd Hin) as Hl.
+  destruct (rm e l) as [|y m] eqn:E; [cbn [length] in Hl; lia|].
+  exists y. assert (Hy : In y (rm e l)) by (rewrite E; left; reflexivity).
+  apply in_remove in Hy. exact Hy.
+Qed.
+
+Lemma evict_ring_len s cs b s' v : evict_entry s cs b = Ok (s', v) ->
+  NoDup (ring s) -> (forall w, zprec cs = Some w -> In w (prec s)) ->
+  (forall w, zprobe cs = Some w -> In w (probe s)) -> length (ring s') = length (ring s).
+Proof.
+  intros Hev Hnd Hp Hq. rewrite !ring_len.
+  destruct (evict_shape _ _ _ _ _ Hev) as (_ & E0 & _ & [(Hz & E1 & E2 & E3 & E4)|(Hz & E1 & E2 & E3 & E4)]);
+    rewrite E0, E1, E2, E3, E4; cbn [length].
+  - assert (NoDup (probe s)).
+    { apply (NoDup_count_occ Nat.eq_dec). intros x. fold (cnt (probe s) x).
+      pose proof (nodup_cnt _ x Hnd) as Hc. unfold ring in Hc. rewrite !cnt_app, !cnt_rev in Hc. lia. }
+    pose proof (length_rm_in _ _ H (Hq v Hz)). lia.
+  - assert (NoDup (prec s)).
+    { apply (NoDup_count_occ Nat.eq_dec). intros x. fold (cnt (prec s) x).
+      pose proof (nodup_cnt _ x Hnd) as Hc. unfold ring in Hc. rewrite !cnt_app, !cnt_rev in Hc. lia. }
+    pose proof (length_rm_in _ _ H (Hp v Hz)). lia.
+Qed.
+
+Lemma reclaim_ring_len f s cs s' d ev : reclaim f s cs = Ok (s', d, ev) ->
+  NoDup (ring s) -> (forall w, zprec cs = Some w -> In w (prec s)) ->
+  (forall w, zprobe cs = Some w -> In w (probe s)) -> length (ring s') = length (ring s).
+Proof.
+  unfold reclaim. destruct (_ <? cap s).
+  - destruct (_ && _); [discriminate|]. destruct (nth_error _ _); [|discriminate].
+    intros E; inversion E; subst. reflexivity.
+  - destruct (evict_entry s cs 0) as [[s1 v]|] eqn:Ev; [|discriminate].
+    intros E Hnd Hp Hq; inversion E; subst.
+    rewrite <- (evict_ring_len _ _ _ _ _ Ev Hnd Hp Hq). rewrite !ring_len. reflexivity.
+Qed.
+
+Lemma sim_gom r s k cs rcs s' e ev :
+  Rl r (prec s) (gprec s) (unused s) (gprobe s) (probe s) (infl s) -> raux r = saux s ->
+  cs_match s cs rcs -> length (prec s) + length (probe s) < length (ring s) ->
+  2 <= length (ring s) ->
+  ghost_or_missed true s k cs = Ok (s', e, ev) ->
+  exists r', r_ghost_or_missed r k rcs = ROk (r', e, ev) /\
+             Rl r' (prec s') (gprec s') (unused s') (gprobe s') (probe s') (infl s') /\
+             raux r' = saux s'.
+Proof.
+  intros HRl Haux HM Hroom H2 Hg.
+  pose proof Haux as Haux0. aux_inv Haux.
+  assert (HndL : NoDup (ring s)) by (apply (nodup_app_l _ _ (L_nd _ _ _ _ _ _ _ HRl))).
+  unfold ghost_or_missed in Hg. unfold r_ghost_or_missed.
+  rewrite (rfind_find r s k _ Akey), (M_gp _ _ _ HM).
+  destruct (ptr_gprec _ _ _ _ _ _ _ HRl) as [Hw1 Hc1]. rewrite Hw1, Hc1.
+  rewrite (L_ngp _ _ _ _ _ _ _ HRl), (L_ngq _ _ _ _ _ _ _ HRl), Adp, Acap.
+  pose proof (find_key_spec s k (gprec s)) as Hf1.
+  destruct (find_key s k (gprec s)) as [g|].
+  { (* ghost precious hit *)
+    destruct Hf1 as [Hgin _]. apply cnt_in in Hgin.
+    set (dp := if (if length (gprec s) <? length (gprobe s) then length (gprobe s) / length (gprec s) else 1) <? dprobe s
+               then dprobe s - (if length (gprec s) <? length (gprobe s) then length (gprobe s) / length (gprec s) else 1)
+               else 0) in *.
+    destruct (reclaim true (set_dprobe dp s) cs) as [[[s2 d] ev2]|] eqn:Hrec; [|discriminate].
+    inversion Hg; subst s' e ev. clear Hg.
+    assert (HRl1 : Rl (rset_dprobe dp r) (prec s) (gprec s) (unused s) (gprobe s) (probe s) (infl s))
+      by (apply (Rl_ptr r); [reflexivity|exact HRl]).
+    assert (Ha1 : raux (rset_dprobe dp r) = saux (set_dprobe dp s))
+      by (unfold raux, saux; rsimp; simp_st; congruence).
+    destruct (sim_reclaim (rset_dprobe dp r) (set_dprobe dp s) cs rcs s2 d ev2) as (r2 & E2 & HRl2 & Ha2);
+      try assumption.
+    { destruct HM as [M1 M2 M3 M4 M5 M6 M7 M8]. constructor; simp_st; assumption. }
+    rewrite E2.
+    destruct (reclaim_keeps_ghosts _ _ _ _ _ _ Hrec) as [Hkg _]. simp_st.
+    pose proof (Hkg g Hgin) as Hgin2.
+    assert (Hlen2 : length (ring s2) = length (ring s)).
+    { rewrite (reclaim_ring_len _ _ _ _ _ _ Hrec); [reflexivity|exact HndL| |];
+        [apply (M_inp _ _ _ HM)|apply (M_inq _ _ _ HM)]. }
+    assert (Hnd2 : NoDup (ring s2)) by (apply (nodup_app_l _ _ (L_nd _ _ _ _ _ _ _ HRl2))).
+    destruct (ngprec r2) as [|n] eqn:Hn2.
+    { exfalso. rewrite (L_ngp _ _ _ _ _ _ _ HRl2) in Hn2. destruct (gprec s2); [contradiction|discriminate]. }
+    assert (Hd2 : rdata r2 = data s2).
+    { unfold raux, saux in Ha2. injection Ha2 as _ _ _ _ B5 _ _ _ _ _ _. exact B5. }
+    destruct (sim_reuse_ghost_prec r2 s2 g d n HRl2 Ha2 Hgin2 Hn2) as [HRl3 Ha3].
+    { apply two_witness; [exact Hnd2| |lia].
+      unfold ring. apply in_or_app. right. apply in_or_app. left. exact Hgin2. }
+    cbn zeta in HRl3, Ha3. rewrite Hd2 in HRl3, Ha3.
+    eexists. split; [rewrite Hd2; reflexivity|]. split; assumption. }
+  rewrite (rfind_find r s k _ Akey). rsimp. rewrite (M_gq _ _ _ HM).
+  destruct (ptr_gprobe _ _ _ _ _ _ _ HRl) as [Hw2 Hc2]. rewrite (L_ngq _ _ _ _ _ _ _ HRl) in Hw2, Hc2.
+  rewrite Hw2, Hc2.
+  pose proof (find_key_spec s k (gprobe s)) as Hf2.
+  destruct (find_key s k (gprobe s)) as [g|].
+  { (* ghost probe hit *)
+    destruct Hf2 as [Hgin _]. apply cnt_in in Hgin.
+    set (dp := if dprobe s + (if length (gprobe s) <? length (gprec s) then length (gprec s) / length (gprobe s) else 1) <? cap s
+               then dprobe s + (if length (gprobe s) <? length (gprec s) then length (gprec s) / length (gprobe s) else 1)
+               else cap s) in *.
+    destruct (reclaim true (set_dprobe dp s) cs) as [[[s2 d] ev2]|] eqn:Hrec; [|discriminate].
+    inversion Hg; subst s' e ev. clear Hg.
+    assert (HRl1 : Rl (rset_dprobe dp r) (prec s) (gprec s) (unused s) (gprobe s) (probe s) (infl s))
+      by (apply (Rl_ptr r); [reflexivity|exact HRl]).
+    assert (Ha1 : raux (rset_dprobe dp r) = saux (set_dprobe dp s))
+      by (unfold raux, saux; rsimp; simp_st; congruence).
+    destruct (sim_reclaim (rset_dprobe dp r) (set_dprobe dp s) cs
+                (cs_set_eprec (eprecP (prec s) (gprec s) (unused s) (gprobe s) (probe s)) rcs) s2 d ev2)
+      as (r2 & E2 & HRl2 & Ha2); try assumption.
+    { destruct HM as [M1 M2 M3 M4 M5 M6 M7 M8]. constructor; simp_st; rsimp; assumption. }
+    rewrite E2.
+    destruct (reclaim_keeps_ghosts _ _ _ _ _ _ Hrec) as [_ Hkg]. simp_st.
+    pose proof (Hkg g Hgin) as Hgin2.
+    assert (Hlen2 : length (ring s2) = length (ring s)).
+    { rewrite (reclaim_ring_len _ _ _ _ _ _ Hrec); [reflexivity|exact HndL| |];
+        [apply (M_inp _ _ _ HM)|apply (M_inq _ _ _ HM)]. }
+    assert (Hnd2 : NoDup (ring s2)) by (apply (nodup_app_l _ _ (L_nd _ _ _ _ _ _ _ HRl2))).
+    destruct (ngprobe r2) as [|n] eqn:Hn2.
+    { exfalso. rewrite (L_ngq _ _ _ _ _ _ _ HRl2) in Hn2. destruct (gprobe s2); [contradiction|discriminate]. }
+    assert (Hd2 : rdata r2 = data s2).
+    { unfold raux, saux in Ha2. injection Ha2 as _ _ _ _ B5 _ _ _ _ _ _. exact B5. }
+    destruct (sim_reuse_ghost_probe r2 s2 g d n HRl2 Ha2 Hgin2 Hn2) as [HRl3 Ha3].
+    { apply two_witness; [exact Hnd2| |lia].
+      unfold ring. rewrite !in_app_iff, <- !in_rev. tauto. }
+    cbn zeta in HRl3, Ha3. rewrite Hd2 in HRl3, Ha3.
+    eexists. split; [rewrite Hd2; reflexivity|]. split; assumption. }
+  (* a real miss *)
+  apply (sim_missed r s k cs); try assumption; try reflexivity.
+  destruct HM as [M1 M2 M3 M4 M5 M6 M7 M8]. constructor; rsimp; assumption.
+Qed.
